@@ -159,7 +159,6 @@ Record storage := {
 }.
 
 Record rst := {
-  r_eof : bool;                            (* reached_eof_chunk *)
   r_nvr : Z; r_ner : Z; r_nfr : Z; r_ncr : Z;   (* n_*_read_ *)
   r_pos : list (list Z);                   (* positions of vertices 0 .. n_verts_read_-1 (as 64-bit patterns) *)
   r_edges : list (Z * Z);
@@ -170,26 +169,23 @@ Record rst := {
 }.
 
 Definition init_rst : rst :=
-  {| r_eof := false; r_nvr := 0; r_ner := 0; r_nfr := 0; r_ncr := 0; r_pos := []; r_edges := []; r_faces := []; r_cells := [];
+  {| r_nvr := 0; r_ner := 0; r_nfr := 0; r_ncr := 0; r_pos := []; r_edges := []; r_faces := []; r_cells := [];
      r_stor := []; r_props := [] |}.
 
-Definition set_eof (st : rst) : rst :=
-  {| r_eof := true; r_nvr := r_nvr st; r_ner := r_ner st; r_nfr := r_nfr st; r_ncr := r_ncr st; r_pos := r_pos st;
-     r_edges := r_edges st; r_faces := r_faces st; r_cells := r_cells st; r_stor := r_stor st; r_props := r_props st |}.
 Definition add_verts (n : Z) (ps : list (list Z)) (st : rst) : rst :=
-  {| r_eof := r_eof st; r_nvr := r_nvr st + n; r_ner := r_ner st; r_nfr := r_nfr st; r_ncr := r_ncr st; r_pos := r_pos st ++ ps;
+  {| r_nvr := r_nvr st + n; r_ner := r_ner st; r_nfr := r_nfr st; r_ncr := r_ncr st; r_pos := r_pos st ++ ps;
      r_edges := r_edges st; r_faces := r_faces st; r_cells := r_cells st; r_stor := r_stor st; r_props := r_props st |}.
 Definition add_edges (n : Z) (es : list (Z * Z)) (st : rst) : rst :=
-  {| r_eof := r_eof st; r_nvr := r_nvr st; r_ner := r_ner st + n; r_nfr := r_nfr st; r_ncr := r_ncr st; r_pos := r_pos st;
+  {| r_nvr := r_nvr st; r_ner := r_ner st + n; r_nfr := r_nfr st; r_ncr := r_ncr st; r_pos := r_pos st;
      r_edges := r_edges st ++ es; r_faces := r_faces st; r_cells := r_cells st; r_stor := r_stor st; r_props := r_props st |}.
 Definition add_faces (n : Z) (fs : list (list Z)) (st : rst) : rst :=
-  {| r_eof := r_eof st; r_nvr := r_nvr st; r_ner := r_ner st; r_nfr := r_nfr st + n; r_ncr := r_ncr st; r_pos := r_pos st;
+  {| r_nvr := r_nvr st; r_ner := r_ner st; r_nfr := r_nfr st + n; r_ncr := r_ncr st; r_pos := r_pos st;
      r_edges := r_edges st; r_faces := r_faces st ++ fs; r_cells := r_cells st; r_stor := r_stor st; r_props := r_props st |}.
 Definition add_cells (n : Z) (cs : list (list Z)) (st : rst) : rst :=
-  {| r_eof := r_eof st; r_nvr := r_nvr st; r_ner := r_ner st; r_nfr := r_nfr st; r_ncr := r_ncr st + n; r_pos := r_pos st;
+  {| r_nvr := r_nvr st; r_ner := r_ner st; r_nfr := r_nfr st; r_ncr := r_ncr st + n; r_pos := r_pos st;
      r_edges := r_edges st; r_faces := r_faces st; r_cells := r_cells st ++ cs; r_stor := r_stor st; r_props := r_props st |}.
 Definition set_props (stor : list storage) (props : list (option (Z * nat))) (st : rst) : rst :=
-  {| r_eof := r_eof st; r_nvr := r_nvr st; r_ner := r_ner st; r_nfr := r_nfr st; r_ncr := r_ncr st; r_pos := r_pos st;
+  {| r_nvr := r_nvr st; r_ner := r_ner st; r_nfr := r_nfr st; r_ncr := r_ncr st; r_pos := r_pos st;
      r_edges := r_edges st; r_faces := r_faces st; r_cells := r_cells st; r_stor := stor; r_props := props |}.
 
 (* ------------------------------------------------------------------------------------------------ kernel calls *)
@@ -713,7 +709,8 @@ Definition read_prop_chunk (h : fhdr) (st : rst) (d : dec) : R (rst * dec) :=
        end.
 
 (* BinaryFileReader::read_chunk *)
-Definition read_chunk (o : opts) (h : fhdr) (st : rst) (s : stream) : R (rst * stream) :=
+(* `eof` is reached_eof_chunk *)
+Definition read_chunk (o : opts) (h : fhdr) (st : rst) (eof : bool) (s : stream) : R (rst * bool * stream) :=
   do x <- make_decoder ovmb_size_ChunkHeader s; let (d, s1) := x in
   do _ <- need ovmb_size_ChunkHeader d;
   do y1 <- rd_u32 d; let (ty, d1) := y1 in                         (* is_valid(ChunkType) is always true *)
@@ -733,27 +730,28 @@ Definition read_chunk (o : opts) (h : fhdr) (st : rst) (s : stream) : R (rst * s
                  if mandatory then state_error S_ErrorUnsupportedChunkVersion else Ret (st, [])
                else if ty =? ChunkType_EndOfFile then
                  if negb (payload_length =? 0) then state_error S_Error
-                 else if r_eof st then state_error S_Error
-                 else Ret (set_eof st, cd)
+                 else if eof then state_error S_Error
+                 else Ret (st, cd)
                else if ty =? ChunkType_PropertyDirectory then read_propdir_chunk st cd
                else if ty =? ChunkType_Property then read_prop_chunk h st cd
                else if ty =? ChunkType_Vertices then read_vertices_chunk o h st cd
                else if ty =? ChunkType_Topo then read_topo_chunk o h st cd
                else if mandatory then state_error S_ErrorUnsupportedChunkType else Ret (st, []));
       let (st', rest) := r in
+      let eof' := eof || ((version =? 0) && (ty =? ChunkType_EndOfFile)) in
       match rest with
       | _ :: _ => state_error S_ErrorInvalidFile                  (* "Extra data at end of chunk" *)
       | [] =>
           do w <- make_decoder padding s2; let (pd, s3) := w in
-          if forallb (fun c => c =? 0) pd then Ret (st', s3) else parse_error
+          if forallb (fun c => c =? 0) pd then Ret (st', eof', s3) else parse_error
       end.
 
 (* the while loop of internal_read_file *)
-Fixpoint chunk_loop (fuel : nat) (o : opts) (h : fhdr) (st : rst) (s : stream) : R rst :=
-  if remaining_bytes s <=? 0 then Ret st
+Fixpoint chunk_loop (fuel : nat) (o : opts) (h : fhdr) (st : rst) (eof : bool) (s : stream) : R (rst * bool) :=
+  if remaining_bytes s <=? 0 then Ret (st, eof)
   else match fuel with
        | O => Ub UB_fuel
-       | S f => do x <- read_chunk o h st s; let (st', s') := x in chunk_loop f o h st' s'
+       | S f => do x <- read_chunk o h st eof s; let '(st', eof', s') := x in chunk_loop f o h st' eof' s'
        end.
 
 (* ------------------------------------------------------------------------------------------------ result *)
@@ -790,11 +788,11 @@ Definition decode_stream (o : opts) (s : stream) : outcome :=
   if negb (compatible o h) then RErr RR_IncompatibleMesh S_ErrorIncompatible
   else if negb ok then RErr RR_InvalidFile S_ErrorInvalidFile
   else
-    match chunk_loop (length (s_bytes s1)) o h init_rst s1 with
+    match chunk_loop (length (s_bytes s1)) o h init_rst false s1 with
     | Fail r st => RErr r st
     | Ub w => RUB w
-    | Ret st =>
-        if negb (r_eof st) then RErr RR_InvalidFile S_ErrorEndNotReached
+    | Ret (st, eof) =>
+        if negb eof then RErr RR_InvalidFile S_ErrorEndNotReached
         else if negb (h_ne h =? len (r_edges st)) || negb (h_nf h =? len (r_faces st)) || negb (h_nc h =? len (r_cells st))
         then RErr RR_InvalidFile S_ErrorMissingData
         else ROk (result_mesh o h st)
